@@ -101,7 +101,11 @@ CLAIMS = {
             "_conform_filename call, what it observed (exists/found/cmp/replaced/same-program) and what it did, and "
             "comparing with Conform.decide. The laws are not proved for the real emitters/parsers: they are exactly what "
             "the predicate checks per run (every target, located by an independent resolver and parsed by the real parser, "
-            "must agree with the generated interface). Three finding classes are recorded (stale FunctionDef targets are "
+            "must agree with the generated interface). GroundTruth.sync_all_agree lifts this to the WHOLE loop of "
+            "ground_truth: any number of kinds and files, files shared between kinds or not, any pre-state - every target "
+            "agrees at the end - using two further FRAME laws (writing at one location leaves what is found at an "
+            "independent location alone; step_keeps); toy_laws exhibits a concrete layer that satisfies all seven laws, so "
+            "the theorem is not about an inconsistent set of assumptions. Three finding classes are recorded (stale FunctionDef targets are "
             "not updated; method target without its class; function before target)."
         ),
         design="§7 C09",
@@ -110,7 +114,12 @@ CLAIMS = {
     "C10": dict(
         technique="Lean 4 theorems on the conform decision table (second and every later sync is a no-op; report true iff written) + instrumented differential run over sync histories",
         text=(
-            "Kernel-checked: Conform.second_sync_noop and later_syncs_noop (induction over any number of further syncs: once "
+            "Kernel-checked: GroundTruth.report_lookup (the report of one sync, `effect[f] = effect.get(f, False) or modified` "
+            "folded over ALL _conform_filename calls, contains a file exactly when some step named it and says changed "
+            "exactly when some step on it changed it - any number of kinds, files, steps; tied to the code by the `report` "
+            "layer: the recorded per-call flags of every real run against the dict ground_truth returns), "
+            "step_false_unchanged (a step that answers False leaves the file system as it was), reportOld_witness (what fix "
+            "460074c repaired). " "Kernel-checked: Conform.second_sync_noop and later_syncs_noop (induction over any number of further syncs: once "
             "a file exists, the definition is found and re-rendering reproduces the same program, nothing is written and "
             "'unchanged' is reported, whatever cmp_ast and RewriteAtQuery answer), report_iff_written, "
             "decide_leaves_unchanged_file, the D14 witness decideOld_reports_unchanged_file, and the abstract "
